@@ -5,6 +5,7 @@ package main
 
 import (
 	"go/types"
+	"sort"
 	"strings"
 
 	"golang.org/x/tools/go/ssa"
@@ -269,7 +270,12 @@ func (g *Gen) applyCallbacks(c *ssa.CallCommon) {
 			g.havocSV("$epoch", "Int")
 			continue
 		}
+		var cellIdx []int
 		for i := range ce.cells {
+			cellIdx = append(cellIdx, i)
+		}
+		sort.Ints(cellIdx)
+		for _, i := range cellIdx {
 			cell := mc.Bindings[i]
 			ad := g.addrOf(cell)
 			nv := g.newConst("cb", ad.Sort)
@@ -281,8 +287,13 @@ func (g *Gen) applyCallbacks(c *ssa.CallCommon) {
 		if ce.allocs {
 			g.bumpAlloc()
 		}
-		for h, s := range ce.heaps {
-			g.havocSV(h, s)
+		var hs []string
+		for h := range ce.heaps {
+			hs = append(hs, h)
+		}
+		sort.Strings(hs)
+		for _, h := range hs {
+			g.havocSV(h, ce.heaps[h])
 		}
 	}
 }
